@@ -2,7 +2,7 @@
    mpsc channel, IoReceiver::read drains its private buffer and, when that is empty, takes
    the next message (or times out).  [step] transcribes the three methods. *)
 From PL Require Export Base.Chars.
-Open Scope N_scope.
+Local Open Scope N_scope.
 
 Inductive msg := MBytes (bs : list N) | MEof.
 Record pipe := { chan : list msg; buf : list N }.
